@@ -136,6 +136,14 @@ unknown_field:
 			if (itr->_ftype != FieldTrait::ft_Length || tv == Common_BodyLength) // this type expects next field to be data
 				break;
 
+			// only a Length field that is immediately followed by its data field (tag + 1) prefixes a fixed width value
+			unsigned ntag(0), nlen(0);
+			for (const char *nptr(dptr + s_offset); s_offset + nlen < fsize && nptr[nlen] >= '0' && nptr[nlen] <= '9' && nlen < 10; ++nlen)
+				ntag = ntag * 10 + (nptr[nlen] - '0');
+			Presence::const_iterator nitr(ntag == tv + 1u ? _fp.get_presence().find(static_cast<unsigned short>(ntag)) : _fp.get_presence().end());
+			if (nitr == _fp.get_presence().end() || nitr->_ftype != FieldTrait::ft_data)
+				break;
+
 			const unsigned val_sz(fast_atoi<unsigned>(val));
 			if(val_sz > FIX8_MAX_FLD_LENGTH - 1)
 				throw f8Exception("Value size too large");
